@@ -72,6 +72,18 @@ CHECKS = {
         note="Bounded: N<=5 atoms per alphabet (exhaustive); the model's recursion is unbounded, the implementation's depth limit is probed separately; NotImplementedError from the general transmission line model counts as a deliberate refusal.",
         technique="TLA+ spec (CDC.tla, CDCTotal.tla) + TLC exhaustive enumeration of atom sequences; spec->code replay of every input with outcome-class comparison",
     ),
+    "C18": dict(
+        text="specs/Progress.tla is the Progress counter machine (enter/increment/set/set_message/exit, the module-global 'recent' "
+             "marker shared by nested objects, per-object notification step) plus the step accounting of perform_zhit and fit_circuit; "
+             "specs/ProgressMC.tla model-checks it (fractions within 0..1, counter within total, no option combination overruns its "
+             "announced total) and enumerates the option cross product of the KK, Z-HIT, DRT and fit entry points. Every enumerated "
+             "configuration (sampled in the quick tier) is run for real on spectra of several sizes with every Progress call and "
+             "callback notification recorded; specs/TraceProgress.tla validates all recorded traces against the counter machine in "
+             "one TLC run and accepts only outcomes the property allows (returned, refused up front, library error).",
+        design_ref="§4 C18",
+        note="Configurations x sizes are finite samples of the input space (one mock spectrum family); size floors per entry point are frozen; KK/DRT step accounting is validated against the counter machine only, not re-derived.",
+        technique="TLA+ spec (Progress.tla, ProgressMC.tla) + TLC; spec->code drive of every option combination and code->spec batched trace validation (TraceProgress.tla)",
+    ),
 }
 
 NOT_APPLICABLE = {
